@@ -8,6 +8,7 @@ import json, os
 from .common import *
 from .core import nontrivial, LOCAL_CONSTS, generate_behaviours, replay_local, PROPS
 from .c01 import GCONST, simulate, report_agreement
+from .fetch import fetch_part
 
 
 def run_full(ctx, hs, kind, runs, extra=(), tag=""):
@@ -46,20 +47,29 @@ def report_named(ctx, rep, tpath, prefix, st, what):
 
 
 def liveness_model(ctx, q):
-    # small closed systems with silent (crashed) authorities: after the network stabilises (timers fire only when nothing
-    # useful is deliverable) every live node eventually commits -- checked by TLC under weak fairness
-    cfgs = [("n4 crash 3", dict(N="4", Honest="{0,1,2}", MaxRound="7")), ("n4 crash 1", dict(N="4", Honest="{0,2,3}", MaxRound="7"))]
+    # small closed systems with silent (crashed) authorities: after the network stabilises (timers fire only when nothing useful is
+    # deliverable) every live node eventually commits, and commits keep coming -- checked by TLC under weak fairness.  The proposer's wait for a
+    # quorum of acknowledgements of its own block (proposer.rs make_block) is part of the model (MC_Live: pbusy / NetAck).
+    cfgs = [("n4 crash 3", dict(N="4", Honest="{0,1,2}", MaxRound="9")), ("n4 crash 1", dict(N="4", Honest="{0,2,3}", MaxRound="9"))]
     if not q:
-        cfgs += [("n4 crash 0", dict(N="4", Honest="{1,2,3}", MaxRound="8")), ("n5 crash 2", dict(N="5", Stake="<- S5", Honest="{0,1,3,4}", MaxRound="8")),
+        cfgs += [("n4 crash 0", dict(N="4", Honest="{1,2,3}", MaxRound="9")), ("n5 crash 2", dict(N="5", Stake="<- S5", Honest="{0,1,3,4}", MaxRound="9")),
                  ("n7 crash 1,2", dict(N="7", Stake="<- S7", Honest="{0,3,4,5,6}", MaxRound="9"))]
     for name, over in cfgs:
         c = dict(GCONST, Variants="{0}", MaxByzMsgs="0")
         c.update(over)
-        cfg = write_cfg(ctx, "live-%s.cfg" % name.replace(" ", "_").replace(",", "_"), "LiveSpec", c, invariants=["Agreement", "CommitBeforeEnd"], properties=["Progress"])
+        cfg = write_cfg(ctx, "live-%s.cfg" % name.replace(" ", "_").replace(",", "_"), "LiveSpec", c, invariants=["Agreement", "CommitBeforeEnd", "CommitsKeepComing"],
+                        properties=["Progress"])
         r = model_job(ctx, "closed system with crashed authorities (%s): safety + progress under fairness after stabilisation" % name, "MC_Live.tla", cfg, True,
-                      json.dumps(c), workers=8, timeout=600 if q else 2400)
+                      json.dumps(c), workers=8, timeout=900 if q else 3000)
         if r["violated"]:
             ctx.violation("HotStuff.tla: %s violated in the liveness model (%s)" % (r["violated"], name), "model", {"tlc_output_tail": r["out"][-5000:]})
+    # non-vacuity: a proposer that needs a quorum of acknowledgements from *others* stalls the system once f authorities are silent
+    c = dict(GCONST, Variants="{0}", MaxByzMsgs="0", N="4", Honest="{0,1,2}", MaxRound="9", Weaken='{"proposer_excludes_self"}')
+    cfg = write_cfg(ctx, "live-atk.cfg", "LiveSpec", c, invariants=["Agreement", "CommitsKeepComing"], properties=["Progress"])
+    rr = tlc(ctx, "MC_Live.tla", cfg, workers=4, timeout=900, name="live-atk")
+    ctx.extra["liveness_attack_model_proposer_excludes_self_rejected"] = rr["violated"]
+    if not rr["violated"]:
+        raise ToolError("vacuity guard: the liveness model with a proposer that does not count its own stake still makes progress")
 
 
 def run_c06(ctx):
@@ -98,6 +108,8 @@ def run_c07(ctx):
                   "rounds<=3, MaxParked=%s" % consts["MaxParked"], workers=8, timeout=2400)
     if r["violated"]:
         ctx.violation("HotStuff.tla violates %s" % r["violated"], "model", {"tlc_output_tail": r["out"][-5000:]})
+    # the fetch subsystem on its own: requests, retries with other peers, resumption, helper replies (Fetch.tla)
+    fetch_part(ctx, hs, "C07")
     st, rep, rep2, tpath = run_full(ctx, hs, "lag", 8 if q else 120)
     for s in st["summaries"]:
         ctx.distinct.add(json.dumps([s["isolate"], s["drop_first_sync"]]))
@@ -144,6 +156,8 @@ def run_c08(ctx):
     behs = behaviours_from(r["out"])[: (300 if q else 4000)]
     st0, rep0 = replay_local(ctx, "C08", spec, hs, behs, "pay")
     ctx.extra["payload_behaviours_replayed"] = st0.get("behaviours")
+    # the payload waiter on its own: a waiting block is looped back only when every batch it waited for is stored (Fetch.tla)
+    fetch_part(ctx, hs, "C08")
     st, rep, rep2, tpath = run_full(ctx, hs, "avail", 6 if q else 80)
     ctx.samples = [{k: s[k] for k in ("n", "withheld_from", "drop_first_sync", "submitted", "e2e")} for s in st["summaries"][:3]]
     report_named(ctx, rep, tpath, "C08.", st, "a node voted for / committed a block whose batches it does not store")
@@ -181,6 +195,8 @@ def run_c13(ctx):
     r = simulate(ctx, "n4-honest", dict(Honest="{0,1,2,3}", Variants="{0}"), 30 if q else 600, 300)
     if r["violated"]:
         ctx.violation("HotStuff.tla violates %s (fault-free closed system)" % r["violated"], "model", {"tlc_output_tail": r["out"][-5000:]})
+    # batch fetching on its own: request to the proposer, retries with other peers after sync_retry_delay, resumption (Fetch.tla)
+    fetch_part(ctx, hs, "C13")
     st, rep, rep2, tpath = run_full(ctx, hs, "e2e", 8 if q else 120)
     for s in st["summaries"]:
         ctx.distinct.add(json.dumps([s["submitted"], s["withheld_from"], s["drop_first_sync"], s["frames"]]))
